@@ -482,6 +482,26 @@ def h_net_sample(w, st, rec):
                     w.violate("seeded_sample_differs", site,
                               {"first_step": f["step"], "seed": rec["seed"], "n": rec.get("n"),
                                "global_rng_prestates_differ": differ})
+    if rec.get("burst") and not failed_peer and not found:
+        # a long session in one step: the same sample call many times in a row
+        for b in range(int(rec["burst"]) - 1):
+            l0 = len(peer().log)
+            ob = w.call(lambda: obj.sample(n, random_state=seed))
+            if ob[0] != "ok":
+                w.violate("exception_contract", site + ":valid_arguments",
+                          {"raised": type(ob[1]).__name__, "how": "repetition %d of a burst" % (b + 2)})
+                break
+            if rec.get("seed") is not None and digest(ob[1]) != digest(S):
+                w.violate("seeded_sample_differs", site, {"how": "repetition %d of a burst of %d identical seeded calls"
+                                                          % (b + 2, rec["burst"]), "seed": rec["seed"]})
+                break
+            if b == int(rec["burst"]) - 2 or rec.get("seed") is None:
+                bad = check_sample(w, st, rec["net"], net, dict(rec, n=n), ob[1], peer().log[l0:])
+                for cls, s2, detail in bad:
+                    w.violate(cls, s2, dict(detail, how="repetition %d of a burst" % (b + 2)))
+                if bad:
+                    break
+        w.probes["burst.samples_on_one_network"] += 1
     if rec.get("keep"):
         st.results[rec["keep"]] = S
     # systematic single-fault sweep over the predict messages of this call (oracle 8)
@@ -715,7 +735,7 @@ def gen_config(g):
     big = g.random() < 0.05
     return {"length": g.randint(6, 30) if not big else g.randint(5, 10),
             "pmax": g.randint(1, 6) if not big else g.randint(9, 13), "big": big,
-            "nbig": g.random() < 0.04, "nets": g.randint(1, 2) if not big else 1,
+            "nbig": g.random() < 0.04, "bursts": g.random() < 0.08, "nets": g.randint(1, 2) if not big else 1,
             "peer": (lambda kk: {"k": kk, "slack": g.random() < 0.2, "uniform": kk >= 2 and g.random() < 0.5})(
                 g.choice([1, 1, 2, 3, 4, 6])),
             "faults": faults, "fault_rate": g.choice([0.1, 0.2, 0.3]), "clients": g.randint(1, 3),
@@ -786,6 +806,8 @@ def generate(run_seed, deep=False):
                 nres += 1
                 rec["keep"] = "r%d" % nres
             nn = rec["n"]
+            if cfg.get("bursts") and g.random() < 0.25 and not cfg.get("big") and isinstance(nn, int) and nn <= 8:
+                rec["burst"] = g.choice([6, 30, 70])
             if "peer.error" in faults and g.random() < cfg["fault_rate"] and not cfg.get("big") and \
                     (nn is None or (isinstance(nn, int) and nn <= 40) or (isinstance(nn, list) and max(nn) <= 40)):
                 rec["sweep"] = True
@@ -886,7 +908,7 @@ REQUIRED_PROBES = ["sources>=2.independence_checkable", "sources>=2.independence
                    "seeded_pair.nontrivial", "seeded_pair.seed0", "seeded_pair.numpy_integer_seed", "seeded_pair.seed_sequence_object_reused", "seeded_pair.sep.global_reseed",
                    "seeded_pair.k>=2.non_source", "peer.k>=2.non_source", "peer_fault.fit", "verbose",
                    "sample_after_scribble_input", "n:none", "n:int", "n:list", "sweep.peer_fault_positions", "sweep.alloc_fault_positions", "non_sources>=2.draw_independence_checkable",
-                   "seed_passed_positionally",
+                   "seed_passed_positionally", "burst.samples_on_one_network",
                    "peer_fault.predict.raised", "data.non_contiguous_views", "data.fortran_order", "data.dtype:<i8",
                    "data.dtype:<f4"] + \
                   ["invalid:" + k for k in sorted(INVALID_NEW)] + ["invalid:" + k for k in sorted(INVALID_N)]
